@@ -592,3 +592,94 @@ def returns(fn):
 def is_this(n):
     n = strip_casts(n)
     return is_node(n) and n['k'] == 'this'
+
+
+# ---------------------------------------------------------------------------
+# linear normal form
+def linform(fn, n, subst=None, depth=0):
+    """Expression -> (coeffs: {symbol: int}, const) over integers, or None if
+    not linear. Symbols are normalised renderings of non-arithmetic leaves.
+    `subst`: {local did: defining expr} to inline const locals."""
+    n = strip_casts(n)
+    if not is_node(n) or depth > 30:
+        return None
+    k = n['k']
+    v = int_value(n)
+    if v is not None:
+        return ({}, v)
+    if k == 'cast':
+        return linform(fn, n['e'], subst, depth + 1)
+    if k == 'construct' and len(n.get('args', [])) == 1:
+        return linform(fn, n['args'][0], subst, depth + 1)
+    if k == 'bin' and n['op'] in ('+', '-'):
+        a = linform(fn, n['lhs'], subst, depth + 1)
+        b = linform(fn, n['rhs'], subst, depth + 1)
+        if a is None or b is None:
+            return None
+        sgn = 1 if n['op'] == '+' else -1
+        co = dict(a[0])
+        for s, c in b[0].items():
+            co[s] = co.get(s, 0) + sgn * c
+        return ({s: c for s, c in co.items() if c != 0}, a[1] + sgn * b[1])
+    if k == 'call' and n.get('opc') in ('+', '-') and len(n.get('args', [])) == 2:
+        a = linform(fn, n['args'][0], subst, depth + 1)
+        b = linform(fn, n['args'][1], subst, depth + 1)
+        if a is None or b is None:
+            return None
+        sgn = 1 if n['opc'] == '+' else -1
+        co = dict(a[0])
+        for s, c in b[0].items():
+            co[s] = co.get(s, 0) + sgn * c
+        return ({s: c for s, c in co.items() if c != 0}, a[1] + sgn * b[1])
+    if k == 'bin' and n['op'] == '*':
+        a = linform(fn, n['lhs'], subst, depth + 1)
+        b = linform(fn, n['rhs'], subst, depth + 1)
+        if a is None or b is None:
+            return None
+        if not a[0]:
+            return ({s: c * a[1] for s, c in b[0].items()}, a[1] * b[1])
+        if not b[0]:
+            return ({s: c * b[1] for s, c in a[0].items()}, a[1] * b[1])
+        return ({render(fn, n): 1}, 0)
+    if k == 'un' and n['op'] == '-':
+        a = linform(fn, n['e'], subst, depth + 1)
+        if a is None:
+            return None
+        return ({s: -c for s, c in a[0].items()}, -a[1])
+    if k == 'ref' and subst and n.get('did') in subst:
+        return linform(fn, subst[n['did']], subst, depth + 1)
+    if k in ('ref', 'member', 'call', 'sub', 'sizeof'):
+        return ({render(fn, n): 1}, 0)
+    return None
+
+
+def lin_sub(a, b):
+    co = dict(a[0])
+    for s, c in b[0].items():
+        co[s] = co.get(s, 0) - c
+    return ({s: c for s, c in co.items() if c != 0}, a[1] - b[1])
+
+
+def lin_neg(a):
+    return ({s: -c for s, c in a[0].items()}, -a[1])
+
+
+def const_local_subst(fn):
+    """{did: init expr} for locals with exactly one definition (their
+    initialiser) - safe to inline when comparing expressions."""
+    out = {}
+    for n in fn.all_nodes():
+        if n['k'] == 'decl':
+            for v in n['vars']:
+                if v.get('did') is not None and v.get('init') is not None and len(local_defs(fn, v['did'])) == 1:
+                    out[v['did']] = v['init']
+    return out
+
+
+SIGNS = ('neg', 'zero', 'pos')
+
+
+def eval_cmp_sign(op, sign):
+    """Truth of (D op 0) when D has the given sign."""
+    return {'<': sign == 'neg', '<=': sign in ('neg', 'zero'), '>': sign == 'pos', '>=': sign in ('pos', 'zero'),
+            '==': sign == 'zero', '!=': sign != 'zero'}[op]
